@@ -367,6 +367,8 @@ def gen_spec(r, repo, size=None):
             d["occ"] = gen_occupancies(r)
         if r.random() < 0.4:
             d["series"] = [gen_signal(r, t) for t in range(1, r.randint(2, 4))]
+        elif r.random() < 0.25:
+            d["series"] = []        # an empty signal series: the writer must not emit <signalSeries/> (minOccurs 1 inside)
         spec["dynamic"].append(d)
     spec["phantom"] = [{"id": ids.new(), "occ": gen_occupancies(r)} for _ in range(r.randint(0, 1 if size < 2 else 2))]
     spec["envobs"] = [{"id": ids.new(), "type": r.choice(en_types), "shape": gen_shape(r)} for _ in range(r.randint(0, 1 if size < 2 else 2))]
@@ -759,7 +761,7 @@ def build(spec):
         else:
             pred = mk_occ(o["occ"])
         sig0 = mk_signal(o["sig0"]) if o["sig0"] else None
-        series = [mk_signal(s) for s in o["series"]] if o["series"] else None
+        series = [mk_signal(s) for s in o["series"]] if o["series"] is not None else None
         if setters:
             d = DynamicObstacle(o["id"], ObstacleType[o["type"]], shp, state(o["init"]))
             d.prediction = pred
